@@ -207,6 +207,7 @@ namespace {
         ElimStat es;
         bool counted_ok = true;
         size_t const T = c.prog.size();
+        bool sp_walk = false;       // the schedule of this case is a random walk
         {
             Gcs gcs;
             make_gc<GC>( gcs, c, Adapter::stack_type::c_nHazardPtrCount );
@@ -218,6 +219,7 @@ namespace {
                 sp.rw_denom = uint32_t( walk );
                 sp.rw_seed = c.seed;
             }
+            sp_walk = sp.rw_denom != 0;
             session_begin( sp );
             {
                 Attach main_attach;
@@ -362,14 +364,11 @@ namespace {
                 note_class( "active_pop_collision", es.act_pop );
             if ( es.failed )
                 note_class( "elimination_failed", es.failed );
+            note_class( "elimination_variant_case" );
             if ( active || passive ) {
                 note_class( "case_with_collision" );
-                note_class( c.rw ? "collision_in_random_walk" : "collision_in_preempt_list" );
-                note_class( ( "collision_walk" + std::to_string( cfg_at( c, CFG_WALK, 0 ))).c_str());
-                note_class( cfg_at( c, CFG_SYNC, 0 ) ? "collision_sync1" : "collision_sync0" );
-                note_class( ( "collision_T" + std::to_string( T )).c_str());
+                note_class( sp_walk ? "collision_under_random_walk" : "collision_under_preemption_list" );
             }
-            note_class( c.rw ? "elim_case_random_walk" : "elim_case_preempt_list" );
             if ( active > 1 )
                 note_class( "case_with_2plus_collisions" );
             // internal statistics, not a contract: every collision has one active and one passive side
